@@ -45,6 +45,7 @@ THEOREMS = [
     "NfcVerif.C20.auth_complete",
     "NfcVerif.C20.protect_then_auth_lite",
     "NfcVerif.C20.protect_then_auth_ntag",
+    "NfcVerif.C20.protect_empty_password",
     "NfcVerif.C20.lite_s_write_mac_accepted",
     "NfcVerif.C20.auth_sound_partial",
 ]
@@ -341,7 +342,7 @@ def _felica(ck, rng, T, add, rb, D, F, fake_os, tt3_sony):
             clean = [r for (_, _, r) in air.trace]
             for xi, frame in enumerate(clean):
                 # quick tier: every bit of the two MAC-carrying read responses of the first base case, samples elsewhere
-                budget = (8 * len(frame)) if (T or (base == 0 and xi in (1, 4))) else 40
+                budget = (8 * len(frame)) if (T or (base == 0 and xi in (1, 4))) else 20
                 for kind, fn, pos in response_masks(rng, frame, T, budget):
                     tag, air, t = fresh(lite_s, F.key_block(tagkey), Tamper({("r", xi): fn}))
                     real = auth_real(t, key, rc)
@@ -377,7 +378,7 @@ def _felica(ck, rng, T, add, rb, D, F, fake_os, tt3_sony):
         for xi, frame in enumerate(cmds):
             bits = list(range(8 * len(frame)))
             if not T:
-                bits = rng.sample(bits, 40)
+                bits = rng.sample(bits, 16)
             for b in bits + [None]:
                 fn = (lambda f: None) if b is None else xor_mask(bit_mask(len(frame), b))
                 tag, air, t = fresh(lite_s, F.key_block(key), Tamper({("c", xi): fn}))
@@ -411,7 +412,7 @@ def _felica(ck, rng, T, add, rb, D, F, fake_os, tt3_sony):
         add("read_with_mac", "lite.rwmcmd %s %s" % (hx(idm), hx(bytes(blocks))), "ok " + hx(cmd), ("rwmcmd", tuple(blocks)), True, "read:command")
         add("read_with_mac", "lite.rwm %s %s %s %s %s" % (hx(idm), hx(sk), hx(iv), hx(bytes(blocks)), hx(frame)), real,
             ("rwm", key, rc, tuple(blocks), frame), False, "read:clean")
-        mods = list(response_masks(rng, frame, T, 8 * len(frame) if (T or base < 1) else 96))
+        mods = list(response_masks(rng, frame, T, 8 * len(frame) if (T or base < 1) else 64))
         dlen = 16 * nblk
         if nblk >= 2:                                      # whole blocks exchanged / duplicated: more than one group changes
             def swap(f, dlen=dlen):
@@ -500,48 +501,62 @@ def _felica(ck, rng, T, add, rb, D, F, fake_os, tt3_sony):
     real = outcome(lambda: t.write_with_mac(bytes(16), 1), lambda r: "none")
     add("write_with_mac", "lites.wwm %s - - %s 01 -" % (hx(idm), hx(bytes(16))), real, ("wwm-unauth",), True, "write:unauthenticated")
 
-    # ---------------- protect, then authenticate
-    for i in range(80 if T else 16):
-        lite_s = bool(i % 2)
-        variant = i // 2 % 4
-        pw = [rb(16), rb(16 + rng.randrange(1, 8)), b"", bytearray(rb(16))][variant]
-        tag, air, t = fresh(lite_s, bytes(16))
-        tag.b[0x88][3] = 0                                   # not NDEF formatted: protect() touches only MC and CK
-        name = type(t).__name__
-        rcs = [rb(16) for _ in range(4)]
-        fake_os.next = list(rcs)
-        real = outcome(lambda: t.protect(pw, protect_from=rng.choice([0, 0, 1, 14])), show_bool)
-        rep = {"product": name, "password": bytes(pw).hex(), "call": "protect(password=bytes.fromhex(%r))" % bytes(pw).hex()}
-        ck.case(("protect", lite_s, bytes(pw)), True, "protect:%s:%s" % (name, real[:12]))
-        if real != "ok true":
-            ck.fail("lite-s-protect-bytes-password" if real == "exc AttributeError" and lite_s else "protect-fails",
-                    "%s.protect(%r) on a factory tag -> %s" % (name, bytes(pw), real), rep)
-            continue
-        want = F.key_block(bytes(pw[:16]) if len(pw) else bytes(16))
-        if bytes(tag.b[0x87]) != want:
-            ck.fail("protect-key-layout", "%s.protect stored CK block %s, the manual's layout of the key is %s"
-                    % (name, bytes(tag.b[0x87]).hex(), want.hex()), rep)
-        for other, expect in ((pw, "ok true"), (bytes(pw) + b"tail" if len(pw) else bytes(16), "ok true"),
-                              (rb(16), "ok false"),
-                              (bytes([(pw[0] if len(pw) else 0) ^ 0x80]) + (bytes(pw[1:]) if len(pw) else bytes(15)), "ok false")):
-            fake_os.next = [rb(16)]
-            real = outcome(lambda: t.authenticate(other), show_bool)
-            ck.case(("protect-auth", lite_s, bytes(pw), bytes(other)), True, "protect:then-auth:" + real)
-            if real != expect:
-                ck.fail("protect-then-auth", "%s.protect(%s) then authenticate(%s) -> %s, expected %s"
-                        % (name, bytes(pw).hex(), bytes(other).hex(), real, expect), dict(rep, authenticate=bytes(other).hex()))
-        fake_os.next = []
-    # protect(None) does not touch the key
-    for lite_s in (False, True):
-        key = rb(16)
-        tag, air, t = fresh(lite_s, F.key_block(key))
-        tag.b[0x88][3] = 0
-        real = outcome(lambda: t.protect(None), show_bool)
-        fake_os.next = [rb(16)]
-        r2 = outcome(lambda: t.authenticate(key), show_bool)
-        ck.case(("protect-none", lite_s, key), True, "protect:none")
-        if (real, r2) != ("ok true", "ok true") or bytes(tag.b[0x87]) != F.key_block(key):
-            ck.fail("protect-none-changes-key", "protect(None) -> %s, authenticate(old key) -> %s" % (real, r2), {"tag_key": key.hex()})
+    # ---------------- protect, then authenticate: every kind of password on tags whose CURRENT key is not the
+    # factory key (so that a protect() that silently keeps the old key is seen), and on factory tags
+    def eff(k):
+        return bytes(x & 0xFE for x in k)              # DES ignores the parity bit of every key octet
+
+    kinds = ["none", "empty", "empty-bytearray", "short", "exact16", "longer", "zeros16", "bytearray", "same-as-old"]
+    rounds = 6 if T else 1
+    for rnd in range(rounds):
+        for lite_s in (False, True):
+            for kind in kinds:
+                for old_is_factory in ((False, True) if (rnd == 0 and kind in ("none", "empty", "exact16")) else (False,)):
+                    old = bytes(16) if old_is_factory else rb(16)
+                    pw = {"none": None, "empty": b"", "empty-bytearray": bytearray(), "short": rb(rng.randrange(1, 16)),
+                          "exact16": rb(16), "longer": rb(16 + rng.randrange(1, 9)), "zeros16": bytes(16),
+                          "bytearray": bytearray(rb(16)), "same-as-old": old}[kind]
+                    tag, air, t = fresh(lite_s, F.key_block(old))
+                    tag.b[0x88][3] = 0                   # not NDEF formatted: protect() touches only MC, CKV and CK
+                    name = type(t).__name__
+                    fake_os.next = [rb(16) for _ in range(4)]
+                    pf = rng.choice([0, 0, 1, 14])
+                    real = outcome(lambda: t.protect(pw, protect_from=pf), show_bool)
+                    pwhex = "None" if pw is None else hx(pw)
+                    rep = {"product": name, "tag_key_before": old.hex(), "password": pwhex, "protect_from": pf,
+                           "call": "protect(password=%s)" % ("None" if pw is None else "bytes.fromhex(%r)" % bytes(pw).hex())}
+                    ck.case(("protect", lite_s, kind, old, pwhex), True, "protect:%s:%s:%s" % (name, kind, real[:12]))
+                    keyw = [c for (_, c, _) in air.trace if c and len(c) == 32 and c[1] == 0x08 and c[14:16] == b"\x80\x87"]
+                    if len(keyw) > 1:
+                        ck.fail("protect-key-written-twice", "%s.protect(%s) wrote the key block %d times" % (name, pwhex, len(keyw)), rep)
+                    add("protect", "lite.protect %s %s" % (hx(idm), pwhex),
+                        real if real.startswith("exc") else "ok " + (hx(keyw[0]) if keyw else "none"),
+                        ("lite.protect", lite_s, pwhex), True, "protect:key-command")
+                    if kind == "short":
+                        if real != "exc ValueError" or bytes(tag.b[0x87]) != F.key_block(old) or tag.log:
+                            ck.fail("short-password-accepted", "%s.protect(%s) -> %s, tag writes %r" % (name, pwhex, real, tag.log), rep)
+                        continue
+                    if real != "ok true":
+                        ck.fail("lite-s-protect-bytes-password" if real == "exc AttributeError" and lite_s else "protect-fails",
+                                "%s.protect(%s) on a tag with writable system blocks -> %s" % (name, pwhex, real), rep)
+                        continue
+                    new = old if pw is None else (bytes(pw[:16]) if len(pw) else bytes(16))
+                    if bytes(tag.b[0x87]) != F.key_block(new):
+                        ck.fail("protect-key-not-provisioned" if bytes(tag.b[0x87]) == F.key_block(old) else "protect-key-layout",
+                                "%s.protect(%s) returned True, the tag held key %s before and now holds CK block %s; the key of that "
+                                "password in the manual's layout is %s" % (name, pwhex, old.hex(), bytes(tag.b[0x87]).hex(), F.key_block(new).hex()), rep)
+                    probes = [(old, eff(old) == eff(new)), (b"", eff(new) == bytes(16)), (rb(16), False),
+                              (bytes([new[0] ^ 0x80]) + new[1:], False)]
+                    if pw is not None:
+                        probes = [(pw, True), (bytes(new) + b"tail", True)] + probes
+                    for other, expect in probes:
+                        fake_os.next = [rb(16)]
+                        r2 = outcome(lambda: t.authenticate(other), show_bool)
+                        ck.case(("protect-auth", lite_s, kind, old, pwhex, bytes(other)), True, "protect:then-auth:" + r2)
+                        if r2 != ("ok true" if expect else "ok false"):
+                            ck.fail("protect-then-auth", "%s held key %s, protect(%s) -> True, then authenticate(%s) -> %s, expected %s"
+                                    % (name, old.hex(), pwhex, hx(other), r2, expect), dict(rep, authenticate=hx(other)))
+                    fake_os.next = []
 
 
 # ------------------------------------------------------------------------------------------------ NTAG21x
@@ -636,31 +651,47 @@ def _ntag(ck, rng, T, add, rb, N):
                 got = "-"
             add("ntag-authenticate", "ntag.auth %s %s" % (hx(pw), got), real, ("ntag.auth", pw, pwd, pack, kind, got), True, "ntag:tamper:" + kind.rstrip("123"))
 
-    # protect(password) then authenticate
-    for i in range(100 if T else 20):
+    # protect(password) then authenticate: every kind of password, on tags that hold ANOTHER password
+    kinds = ["none", "empty", "empty-bytearray", "short", "exact6", "longer", "default6", "bytearray", "same-as-old"]
+    default = b"\xFF\xFF\xFF\xFF\x00\x00"
+    for i in range(len(kinds) * (10 if T else 2)):
         prod = products[i % len(products)]
-        tag = N.NtagTag(prod)
+        kind = kinds[i % len(kinds)]
+        old = default if (i // len(kinds)) % 2 == 1 and kind in ("none", "empty", "exact6") else rb(6)
+        pw = {"none": None, "empty": b"", "empty-bytearray": bytearray(), "short": rb(rng.randrange(1, 6)), "exact6": rb(6),
+              "longer": rb(6 + rng.randrange(1, 5)), "default6": default, "bytearray": bytearray(rb(6)), "same-as-old": old}[kind]
+        tag = N.NtagTag(prod, old[0:4], old[4:6])
         air, t = N.activate(tag)
-        pw = [rb(6), rb(6 + rng.randrange(1, 5)), b"", bytearray(rb(6))][i % 4]
         rp, pf = rng.random() < 0.5, rng.choice([0, 3, 4, 5, 16, 255, 300])
         cfg_before = bytes(tag.mem[4 * tag.cfg:4 * tag.cfg + 8]) + bytes(6) + bytes(tag.mem[4 * tag.cfg + 14:4 * tag.cfg + 16])
         real = outcome(lambda: t.protect(pw, rp, pf), show_bool)
-        rep = {"product": prod, "password": bytes(pw).hex(), "read_protect": rp, "protect_from": pf}
-        ck.case(("ntag.protect", prod, bytes(pw), rp, pf), True, "ntag:protect:" + real)
-        if real != "ok true":
-            ck.fail("protect-fails", "%s.protect(%s, %s, %s) -> %s" % (prod, bytes(pw).hex(), rp, pf, real), rep)
+        pwhex = "None" if pw is None else hx(pw)
+        rep = {"product": prod, "tag_key_before": old.hex(), "password": pwhex, "read_protect": rp, "protect_from": pf}
+        ck.case(("ntag.protect", prod, kind, old, pwhex, rp, pf), True, "ntag:protect:%s:%s" % (kind, real))
+        if kind == "short":
+            if real != "exc ValueError" or tag.pwd + tag.pack != old:
+                ck.fail("short-password-accepted", "%s.protect(%s) -> %s" % (prod, pwhex, real), rep)
             continue
-        if tag.pwd + tag.pack != key_of(pw):
-            ck.fail("protect-key-layout", "%s.protect(%s): tag holds PWD %s PACK %s" % (prod, bytes(pw).hex(), tag.pwd.hex(), tag.pack.hex()), rep)
-        written = [c[2:6] for (_, c, _) in air.trace if c and c[0] == 0xA2 and tag.cfg <= c[1] < tag.cfg + 4]
-        add("ntag-authenticate", "ntag.protect %s %02x %04x %s" % (hx(pw), 1 if rp else 0, pf, hx(cfg_before)),
-            "ok " + " ".join(hx(w) for w in written), ("ntag.protect", bytes(pw), rp, pf), True, "ntag:protect-pages")
-        for other, expect in ((pw, "ok true"), (key_of(pw) + b"xyz", "ok true"), (rb(6), "ok false"),
-                              (bytes([key_of(pw)[0] ^ 1]) + key_of(pw)[1:], "ok false"),
-                              (key_of(pw)[:5] + bytes([key_of(pw)[5] ^ 0x10]), "ok false")):
+        if real != "ok true":
+            ck.fail("protect-fails", "%s.protect(%s, %s, %s) -> %s" % (prod, pwhex, rp, pf, real), rep)
+            continue
+        new = old if pw is None else key_of(pw)
+        if tag.pwd + tag.pack != new:
+            ck.fail("protect-key-not-provisioned" if tag.pwd + tag.pack == old else "protect-key-layout",
+                    "%s held %s, protect(%s) -> True, now holds PWD %s PACK %s, expected %s"
+                    % (prod, old.hex(), pwhex, tag.pwd.hex(), tag.pack.hex(), new.hex()), rep)
+        if pw is not None:
+            written = [c[2:6] for (_, c, _) in air.trace if c and c[0] == 0xA2 and tag.cfg <= c[1] < tag.cfg + 4]
+            add("ntag-authenticate", "ntag.protect %s %02x %04x %s" % (hx(pw), 1 if rp else 0, pf, hx(cfg_before)),
+                "ok " + " ".join(hx(w) for w in written), ("ntag.protect", bytes(pw), rp, pf), True, "ntag:protect-pages")
+        probes = [(old, old == new), (b"", new == default), (rb(6), False), (bytes([new[0] ^ 1]) + new[1:], False),
+                  (new[:5] + bytes([new[5] ^ 0x10]), False)]
+        if pw is not None:
+            probes = [(pw, True), (new + b"xyz", True)] + probes
+        for other, expect in probes:
             air.sense()
-            real = outcome(lambda: t.authenticate(other), show_bool)
-            ck.case(("ntag.protect-auth", bytes(pw), bytes(other)), True, "ntag:protect-then-auth:" + real)
-            if real != expect:
-                ck.fail("protect-then-auth", "%s.protect(%s) then authenticate(%s) -> %s, expected %s"
-                        % (prod, bytes(pw).hex(), bytes(other).hex(), real, expect), dict(rep, authenticate=bytes(other).hex()))
+            r2 = outcome(lambda: t.authenticate(other), show_bool)
+            ck.case(("ntag.protect-auth", kind, old, pwhex, bytes(other)), True, "ntag:protect-then-auth:" + r2)
+            if r2 != ("ok true" if expect else "ok false"):
+                ck.fail("protect-then-auth", "%s held %s, protect(%s) -> True, then authenticate(%s) -> %s, expected %s"
+                        % (prod, old.hex(), pwhex, hx(other), r2, expect), dict(rep, authenticate=hx(other)))
